@@ -260,6 +260,14 @@ type zeroer struct{ A int }
 
 func (z zeroer) IsZero() bool { return z.A == 5 }
 
+// nestedZ: its IsZero method asks typ.IsZero about a field.
+type nestedZ struct {
+	inner zeroer
+	tag   int
+}
+
+func (n nestedZ) IsZero() bool { return typ.IsZero(n.inner) }
+
 // zerr: an error with an IsZero method.
 type zerr struct{ z bool }
 
@@ -585,6 +593,19 @@ func main() {
 			isZeroTable("time.Time", []time.Time{{}, time.Time{}.In(cet), time.Time{}.Local(), time.Unix(0, 0)})
 			isZeroTable("float64", []float64{0, math.Copysign(0, -1), math.NaN(), 1})
 			isZeroTable("[1]any", [][1]any{{nil}, {0}, {zeroer{5}}})
+			// an IsZero method that itself uses typ.IsZero on a field (re-entrancy: a lock or a cache entry
+			// held across the user's method would block or be overwritten)
+			done := make(chan bool, 1)
+			go func() {
+				isZeroTable("nestedZ", []nestedZ{{zeroer{0}, 0}, {zeroer{5}, 1}, {zeroer{1}, 1}, {zeroer{5}, 0}})
+				isZeroTable("any", []any{nestedZ{zeroer{5}, 1}, nestedZ{zeroer{1}, 1}, 42, zeroer{5}})
+				done <- true
+			}()
+			select {
+			case <-done:
+			case <-time.After(60 * time.Second):
+				e.Fail("IsZero|reentrant-blocked", map[string]any{"type": "nestedZ"}, "IsZero on a value whose IsZero method calls typ.IsZero on one of its fields did not return within 60 s")
+			}
 		}
 		if typ.Zero[int]() != 0 || typ.Zero[string]() != "" || typ.Zero[*int]() != nil || typ.Zero[plain]() != (plain{}) || typ.Zero[error]() != nil {
 			e.Fail("Zero|result", nil, "Zero[T]() is not the zero value")
